@@ -407,6 +407,111 @@ def multifile(ctx, props_ok, tmp):
                                **{"class": "multi-file-reader:" + desc["mode"]}))
 
 
+# ------------------------------------------------------------------------------------------ multi-file classes, deterministic (every run)
+PER_FILE_READERS = [   # (name, main flags, family, header line present in the file)
+    ("csv", ["--icsv"], "sep,", True), ("csv --implicit-csv-header", ["--icsv", "--implicit-csv-header"], "sep,", False), ("csv --hi", ["--icsv", "--hi"], "sep,", False),
+    ("csv --headerless-csv-input", ["--icsv", "--headerless-csv-input"], "sep,", False), ("csvlite", ["--icsvlite"], "sep,", True),
+    ("csvlite --implicit-csv-header", ["--icsvlite", "--implicit-csv-header"], "sep,", False), ("tsv", ["--itsv"], "sep\t", True),
+    ("tsv --implicit-tsv-header", ["--itsv", "--implicit-tsv-header"], "sep\t", False), ("pprint", ["--ipprint"], "pprint", True), ("xtab", ["--ixtab"], "xtab", True),
+    ("json", ["--ijson"], "json", True), ("nidx", ["--inidx", "--ifs", " "], "nidx", False), ("dkvp", ["--idkvp"], "dkvp", True),
+]
+# a file = (header, rows); [] rows with a header = header-only file; None = empty file
+FIXED_LAYOUTS = [
+    ("later file narrower", [(["a", "b", "c"], [["1", "2", "3"], ["4", "5", "6"]]), (["a", "b"], [["7", "8"], ["9", "10"]])], False),
+    ("later file wider", [(["a", "b"], [["1", "2"]]), (["a", "b", "c", "d"], [["3", "4", "5", "6"], ["7", "8", "9", "10"]])], False),
+    ("empty file in the middle, then one column", [(["a", "b", "c"], [["1", "2", "3"], ["4", "5", "6"]]), None, (["x"], [["7"]])], False),
+    ("empty first and last file", [None, (["a", "b"], [["1", "2"]]), None], False),
+    ("same width, other header, then header-only", [(["a", "b"], [["1", "2"], ["3", "4"]]), (["b", "a"], [["5", "6"], ["7", "8"]]), (["a", "b"], [])], False),
+    ("three widths 1,3,2", [(["p"], [["1"]]), (["p", "q", "r"], [["2", "3", "4"]]), (["q", "r"], [["5", "6"], ["7", "8"]])], False),
+    ("ragged line in the first file", [(["a", "b", "c"], [["1", "2", "3"], ["4", "5"]]), (["a", "b"], [["6", "7"]])], True),
+    ("ragged (long) line in a later file", [(["a", "b"], [["1", "2"]]), (["a", "b", "c"], [["3", "4", "5"], ["6", "7", "8", "9"]])], True),
+]
+
+
+def render_fixed(family, with_header, f):
+    if f is None:
+        return b""
+    hdr, rows = f
+    if family.startswith("sep"):
+        sep = family[3:]
+        lines = ([sep.join(hdr)] if with_header else []) + [sep.join(r) for r in rows]
+    elif family == "pprint":
+        lines = [" ".join(h.ljust(4) for h in hdr)] + [" ".join(v.ljust(4) for v in r) for r in rows]
+    elif family == "xtab":
+        return "\n".join("".join("%s %s\n" % (k, v) for k, v in zip(hdr, r)) for r in rows).encode()
+    elif family == "json":
+        return ("[\n" + ",\n".join(json.dumps(dict(zip(hdr, r))) for r in rows) + "\n]\n").encode() if rows else b""
+    elif family == "nidx":
+        lines = [" ".join(r) for r in rows]
+    else:
+        lines = [",".join("%s=%s" % (k, v) for k, v in zip(hdr, r)) for r in rows]
+    return "".join(l + "\n" for l in lines).encode()
+
+
+def multifile_fixed(ctx, tmp):
+    """deterministic: for EVERY reader with per-file state (csv with header / --implicit-csv-header / --hi / --headerless-csv-input, csvlite +- implicit, tsv +- implicit,
+    pprint, xtab, json, nidx, dkvp) the same fixed file lists -- later file narrower / wider, empty files first, in the middle and last, same width with another header,
+    header-only file, three different widths, ragged lines with and without --allow-ragged-csv-input -- read together must equal the per-file definition: the
+    concatenation of each file read alone (records, and FNR), and fail exactly when one of the files fails alone."""
+    d0 = os.path.join(tmp, "mfx")
+    os.mkdir(d0)
+    jobs, plans = [], []
+    for ri, (rname, rflags, family, with_header) in enumerate(PER_FILE_READERS):
+        for li, (lname, files, ragged) in enumerate(FIXED_LAYOUTS):
+            if ragged and not family.startswith("sep"):
+                continue
+            for allow in ([False, True] if ragged else [False]):
+                d = os.path.join(d0, "r%dl%d%s" % (ri, li, "a" if allow else ""))
+                os.mkdir(d)
+                names = []
+                for j, f in enumerate(files):
+                    n = "m%d.txt" % (j + 1)
+                    Path(d, n).write_bytes(render_fixed(family, with_header, f))
+                    names.append(n)
+                pre = rflags + (["--allow-ragged-csv-input"] if allow else []) + ["--ojsonl"]
+                verb = ["put", "$_fnr = FNR"]
+                plan = {"reader": rname + (" --allow-ragged-csv-input" if allow else ""), "layout": lname, "dir": d, "names": names, "pre": pre, "together": len(jobs)}
+                jobs.append((pre + verb + names, d))
+                plan["alone"] = []
+                for n in names:
+                    plan["alone"].append(len(jobs))
+                    jobs.append((pre + verb + [n], d))
+                plans.append(plan)
+    res = c05_batch.run_batch(ctx, jobs)
+    c05_batch.crosscheck(ctx, jobs, res, k=3)
+    nbad = nerr = 0
+    for p in plans:
+        tg = res[p["together"]]
+        alone = [res[j] for j in p["alone"]]
+        ctx.count(("multifile-fixed", p["reader"], p["layout"]))
+        ctx.dist("multifile_fixed_reader:" + p["reader"].split(" --allow")[0])
+        files = {n: Path(p["dir"], n).read_bytes().decode("latin1") for n in p["names"]}
+        desc = {"kind": "multifile-fixed", "reader": p["reader"], "layout": p["layout"], "args": jobs[p["together"]][0], "files": files}
+        if any(a[0] not in (0, 1) for a in alone) or tg[0] not in (0, 1):
+            ctx.violation(dict(desc, broken="multi-file run died", statuses=[tg[0]] + [a[0] for a in alone], stderr=tg[2].decode("latin1")[-300:]), found_input=False)
+            continue
+        if all(a[0] == 0 for a in alone):
+            want = b"".join(a[1] for a in alone)
+            if tg[0] != 0 or tg[1] != want:
+                nbad += 1
+                if nbad <= 3:
+                    ctx.violation(dict(desc, broken="oracle: reading f1..fn (%s; %s) differs from the concatenation of reading each file alone" % (p["reader"], p["layout"]),
+                                       together_status=tg[0], observed_together=tg[1].decode("latin1")[:1500], expected=want.decode("latin1")[:1500],
+                                       stderr=tg[2].decode("latin1")[-300:], **{"class": "inputs-do-not-concatenate:" + p["reader"].split(" --allow")[0]}))
+        else:
+            nerr += 1
+            first_bad = next(i for i, a in enumerate(alone) if a[0] != 0)
+            want_prefix = b"".join(a[1] for a in alone[:first_bad])
+            if tg[0] == 0 or not tg[1].startswith(want_prefix):
+                nbad += 1
+                if nbad <= 3:
+                    ctx.violation(dict(desc, broken="oracle: a file that cannot be read alone (data length differs from the header's, no --allow-ragged-csv-input) must make the "
+                                                    "multi-file run fail too, after the records of the files before it", together_status=tg[0],
+                                       observed_together=tg[1].decode("latin1")[:1500], failing_file=p["names"][first_bad],
+                                       **{"class": "ragged-error-lost-in-multi-file-run:" + p["reader"]}))
+    ctx.cov["multifile_fixed"] = {"readers": len(PER_FILE_READERS), "layouts": len(FIXED_LAYOUTS), "cases": len(plans), "runs": len(jobs), "expected_error_cases": nerr, "bad": nbad}
+
+
 # ------------------------------------------------------------------------------------------ contexts travel with the records; end blocks
 SELECTORS = [["cat"], ["tac"], ["filter", "$x >= 2"], ["filter", "$x < 3"], ["filter", "false"], ["tail", "-n", "2"], ["tail", "-n", "1", "-g", "a"], ["head", "-n", "1", "-g", "a"],
              ["head", "-n", "2", "-g", "a"], ["sort", "-f", "a"], ["sort", "-nr", "x"], ["sort", "-f", "a", "-nr", "x"], ["grep", "-v", "pan"], ["grep", "-i", "eks"],
@@ -797,6 +902,9 @@ def run(ctx):
                        "(empty, header-only, differing headers, duplicate header fields, duplicate dkvp keys, ragged lines with and without --allow-ragged-csv-input, blank lines "
                        "= csvlite schema change / csv one-empty-field row, --no-dedupe-field-names) in dkvp/csv/csvlite/tsv/implicit header (csv and csvlite)/nidx; NR/FNR/FILENAME/"
                        "FILENUM columns and the end block's NR, or the error exit, compared with the Coq reader model; bookkeeping laws and `mlr f1..fn` = concatenation of `mlr fi`. "
+                       "(3b) DETERMINISTIC multi-file classes on every run: 13 readers with per-file state (csv, csv --implicit-csv-header / --hi / --headerless-csv-input, csvlite +- implicit, tsv +- implicit, "
+                       "pprint, xtab, json, nidx, dkvp) x 8 fixed file lists (later file narrower / wider, empty files first / middle / last, other header, header-only file, three widths, ragged lines "
+                       "with and without --allow-ragged-csv-input) against the per-file definition (concatenation of each file alone incl. FNR; failure exactly when a file fails alone). "
                        "(4) sources: file, stdin, --from, .gz/.bz2/.z/.zst, --gzin/--bz2in/--zin/--zstdin (also on stdin), --prepipe/--prepipex/--prepipe-gunzip, batch sizes; 40 "
                        "repetitions of a --prepipe run; NF mid-expression; end block context. Most runs go through implrun mlr-batch (real ParseCommandLine + stream.Stream in one "
                        "process), a sample is re-run through the mlr binary; stdin and prepipe variants always use the binary.")
@@ -817,6 +925,7 @@ def run(ctx):
         chains(ctx, ok, tmp)
         oblivious_impl(ctx, tmp)
         multifile(ctx, ok, tmp)
+        multifile_fixed(ctx, tmp)
         context_through_chain(ctx, tmp)
         concat_sources(ctx, tmp)
         sources(ctx, tmp)
@@ -892,6 +1001,19 @@ def replay(ctx, path):
             print("replay: %d of %d runs differ from the expected records" % (badn, runs))
             if badn:
                 ctx.violation(dict(obj, replayed=True, runs_bad_now=badn))
+        elif kind == "multifile-fixed":
+            for n, body in obj["files"].items():
+                Path(d, n).write_bytes(body.encode("latin1"))
+            names = list(obj["files"].keys())
+            pre = obj["args"][:-len(names)]
+            st, out, err = mlr(ctx, obj["args"], cwd=d)
+            alone = [mlr(ctx, pre + [n], cwd=d) for n in names]
+            print("replay: together status=%s\n%s%s" % (st, out.decode("latin1"), err.decode("latin1")))
+            if all(a[0] == 0 for a in alone):
+                if st != 0 or out != b"".join(a[1] for a in alone):
+                    ctx.violation(dict(obj, replayed=True))
+            elif st == 0:
+                ctx.violation(dict(obj, replayed=True))
         elif kind == "context-chain":
             for n, body in obj["files"].items():
                 Path(d, n).write_text(body)
